@@ -10,21 +10,21 @@ use pallas_primitives::{BoundedBytes, ExUnits, PlutusData, PlutusScript};
 use pallas_validate::phase1::{alonzo, babbage, conway};
 use std::collections::BTreeMap;
 
-fn data() -> PlutusData {
+pub fn data() -> PlutusData {
     PlutusData::BoundedBytes(BoundedBytes::from(Vec::new()))
 }
-fn script<const V: usize>() -> PlutusScript<V> {
+pub fn script<const V: usize>() -> PlutusScript<V> {
     let b: u8 = kani::any();
     PlutusScript::<V>(Bytes::from(vec![b]))
 }
-fn units(small: bool) -> ExUnits {
+pub fn units(small: bool) -> ExUnits {
     let e = exu(kani::any(), kani::any());
     if small {
         kani::assume(e.mem < (1 << 63) && e.steps < (1 << 63));
     }
     e
 }
-fn any_alonzo_tag() -> al::RedeemerTag {
+pub fn any_alonzo_tag() -> al::RedeemerTag {
     let t: u8 = kani::any();
     match t & 3 {
         0 => al::RedeemerTag::Spend,
@@ -33,10 +33,10 @@ fn any_alonzo_tag() -> al::RedeemerTag {
         _ => al::RedeemerTag::Reward,
     }
 }
-fn al_redeemer(small: bool) -> al::Redeemer {
+pub fn al_redeemer(small: bool) -> al::Redeemer {
     al::Redeemer { tag: any_alonzo_tag(), index: kani::any(), data: data(), ex_units: units(small) }
 }
-fn co_redeemer(small: bool) -> co::Redeemer {
+pub fn co_redeemer(small: bool) -> co::Redeemer {
     co::Redeemer { tag: co::RedeemerTag::Spend, index: kani::any(), data: data(), ex_units: units(small) }
 }
 
